@@ -114,8 +114,7 @@ theorem plainKeys_patch (ss : Fields) (h : plainKeys ss = true) : plainKeys (pat
 /-- the seed carries the chosen `_id` when it is a scalar -/
 theorem seed_id (ss : Fields) (hk : plainKeys ss = true) (hd : (dkeys ss).Nodup)
     (idv : Val) (hid : ∀ v, dget "_id" ss = some v → idv = v) (hsc : isScalar idv = true) :
-    expandDots (dset "_id" idv ss) = .ok (dset "_id" idv ss) ∧
-    ∃ sf, (discardOps (.doc (dset "_id" idv ss))).1 = .doc sf ∧ dget "_id" sf = some idv := by
+    ∃ sf, upsertSeed ss idv = .ok (.doc sf) ∧ dget "_id" sf = some idv := by
   have hnd : ∀ kv ∈ ss, kv.1.toList.contains '.' = false := fun kv hm => (plainKeys_entry hk hm).1
   have hnl : ∀ kv ∈ ss, kv.1.startsWith "$" = false := fun kv hm => (plainKeys_entry hk hm).2
   have hd' : (dkeys (dset "_id" idv ss)).Nodup := by
@@ -127,8 +126,8 @@ theorem seed_id (ss : Fields) (hk : plainKeys ss = true) (hd : (dkeys ss).Nodup)
       simp only [dkeys, List.map_append, List.map_cons, List.map_nil]
       exact List.nodup_append.2 ⟨hd, by simp, fun a ha b hb => by
         simp only [List.mem_singleton] at hb; subst hb; intro e; subst e; exact hnm ha⟩
-  refine ⟨expandDots_plain _ (nodot_dset ss _ _ id_nodot hnd) hd', _,
-    seed_is_keep _ (nodollar_dset ss _ _ id_nodollar hnl), ?_⟩
+  refine ⟨_, upsertSeed_plain ss idv (fun kv hm =>
+    ⟨nodot_dset ss _ _ id_nodot hnd kv hm, nodollar_dset ss _ _ id_nodollar hnl kv hm⟩), ?_⟩
   rw [dget_keep "_id" idv _ [] hd' (dget_dset_self' "_id" idv ss), discardOps_scalar idv hsc]; rfl
 
 /-! ### the update shapes survive the datetime normalisation -/
@@ -213,15 +212,14 @@ theorem upsert_id_core (cfg : Cfg) (now : Int) (c c1 c' : Coll) (ss ufs : Fields
   subst hc1
   rw [patch_doc] at hdfs
   cases hdfs
-  obtain ⟨expanded, bf, id', hex, hap, hdocs, hid, hr⟩ := afterLoop_built _ _ _ _ _ _ _ _ _ _ hn hal
+  obtain ⟨seed, bf, id', hex, hap, hdocs, hid, hr⟩ := afterLoop_built _ _ _ _ _ _ _ _ _ _ hn hal
   rw [hup] at hr
   cases hr
   have hd' : (dkeys (patchFields ss)).Nodup := by rw [dkeys_patchFields]; exact hd
-  obtain ⟨hex', sf, hseed, hsf⟩ := seed_id (patchFields ss) (plainKeys_patch ss hk) hd'
+  obtain ⟨sf, hseed, hsf⟩ := seed_id (patchFields ss) (plainKeys_patch ss hk) hd'
     (upsertIdv (patchFields ss) (patchFields ufs) c1).1 (upsertIdv_from_filter _ _ _) hsc
-  rw [hex'] at hex
+  rw [hseed] at hex
   cases hex
-  rw [hseed] at hap
   refine ⟨_, sf, bf, hsf, hap, ?_⟩
   intro x hx
   have hw : withId (upsertIdv (patchFields ss) (patchFields ufs) c1).2 bf = bf := by
